@@ -355,14 +355,16 @@ int main(int argc, char** argv)
   spec.rule = "cases = (filter kind, vector length / matrix shape, constrained index set, construction order, prescribed values/normals/weights, operation). "
     "Non-trivial iff at least one entry is constrained (unit/slip), the weight vectors are non-empty (mean), resp. the matrix has stored entries; hashed by all enumeration coordinates.";
   spec.bounds_quick = "UnitFilter<double|float|double,u32>: n=0..10, all 2^n index sets, 7 construction orders (incl. scrambled and add-use-add), for n<=6 also derived filters (deep/shallow clone, move-assigned, clone-into, convert from the other data type, source re-checked) and value modes (prescribed 0/1/-1 with all-negative vectors, extreme magnitudes); the filter operation is the first access to the built filter, 4 ops x (once,twice); CSR: all patterns of all shapes <=4x4 (65536 patterns of 4x4) x all row sets x 3 matrix ops (+dense solve), filters rotating through as-built / deep clone / move-assigned and fresh / previously used on another matrix, weak rows with value modes, u32 index type up to 3x3; "
-    "UnitFilterBlocked<2|3>: 0..4 blocks, all sets, NaN masks; BCSR<2,2|2,3|3,2> all block patterns <=3x3; SlipFilter<2|3>: 0..4 blocks, all sets, 6 normal lists; MeanFilter/MeanFilterBlocked/Global::MeanFilter: n=0..8, 4 weight pairs; "
+    "UnitFilterBlocked/SlipFilter also as convert() from the other data type and move-assigned over a clear()ed filter, SlipFilter accessors, MeanFilterBlocked/TupleFilter via clone(other), Global::Filter and Global::MeanFilter as clone(mode)/clone(other)/move-assigned/convert(); UnitFilterBlocked<2|3>: 0..4 blocks, all sets, NaN masks; BCSR<2,2|2,3|3,2> all block patterns <=3x3; SlipFilter<2|3>: 0..4 blocks, all sets, 6 normal lists; MeanFilter/MeanFilterBlocked/Global::MeanFilter: n=0..8, 4 weight pairs; "
     "NoneFilter; FilterChain, FilterSequence, TupleFilter, PowerFilter, Global::Filter over all index-set tuples for n<=4 (tuple/power components <=3); 7 entry-free matrix combinations in forked children";
   spec.bounds_thorough = "as quick with n<=14 (unit vectors), CSR 4x5 in addition (all 2^20 patterns, double), blocks 0..5, mean n<=12, combinators n<=5 (tuple/power components <=4)";
   spec.assumptions = {
     "generic backend; reference models in long double (c06_common.hpp); == is numeric equality, 'bitwise' is memcmp",
     "excluded (documented/asserted preconditions): zero normals and non-positive volumes; vectors whose size differs from the filter size; duplicate indices only in the 'add twice' construction (last value counts, as verified for SparseVector in C04)",
     "rows without a stored diagonal entry: filter_mat can only zero the row (counted separately, the unit-diagonal claim is not demanded there)",
-    "slip/mean rounding bound: 16(n+2) eps times the magnitude of the operands, error propagation of the reference tracked per entry"};
+    "slip/mean rounding bound: 16(n+2) eps times the magnitude of the operands, error propagation of the reference tracked per entry",
+    "excluded - members of the anchor files that do not compile when instantiated and therefore have no behaviour (DESIGN.md 9.5): FilterChain constructor with 3 or more links (3-link chains are assembled through at<i>()), FilterChain::clone(other,mode), PowerFilter::clone(other,mode), FilterSequence::clone(other,mode), MeanFilterBlocked::convert and MeanFilterBlocked::clear",
+    "excluded - outside C06: bytes() of the filters except a lower bound for Global::Filter (statistics), permute() of the unit filters (C04 checks SparseVector::permute), MPI branches of Global::MeanFilter beyond the serial communicator (C13), CUDA/MKL back ends"};
   spec.max_samples = 8;
   if(const char* mr = std::getenv("VERIF_MAX_REPORT")) spec.max_report = size_t(atol(mr));
   return verif::run(spec, argc, argv, [&](verif::Ctx& c) {
